@@ -308,7 +308,8 @@ func c11BuildTasks(sc *c11Scenario) []*EvictTaskInfo {
 			ti.ToReleaseResource[r] = c11IntQty(r, t.target[r])
 		}
 		for _, p := range t.list {
-			ti.SortedEvictPods = append(ti.SortedEvictPods, &PodEvictInfo{Pod: p.pod, MilliCPUUsed: p.usedCPU, MemoryUsed: p.usedMem,
+			// as with the real pods informer, every task holds its own deep copy of the pod object
+			ti.SortedEvictPods = append(ti.SortedEvictPods, &PodEvictInfo{Pod: p.pod.DeepCopy(), MilliCPUUsed: p.usedCPU, MemoryUsed: p.usedMem,
 				MilliCPURequest: p.reqCPU, MemoryRequest: p.reqMem, Priority: p.prio, LabelPriority: p.labelPrio, EvictionPriority: p.evPrio})
 		}
 		out = append(out, ti)
